@@ -297,9 +297,26 @@ def run(rep):
         okd = okd and idx is not None and pq.call_named(idx, ".date_range") and len(idx[2]) >= 2 and pq.same(idx[2][1], HSTART) and \
             pq.kw_of(idx, "periods") is not None and pq.same(pq.kw_of(idx, "periods"), NVALH)
         fq = pq.kw_of(idx, "freq") if okd else None
-        okd = okd and fq is not None and all((pq.same(x, "'h'") or pq.same(x, "'H'") or pq.same(x, "'60min'")) if any(t and pq.same(c, "nbsec_per_period == 3600") for c, t in list(cn_) + list(p_.conds))
-                                             else pq.same(x, "'30min'") for cn_, x in pq.split_where(fq))
-    rep.check(okd, "R14.c", "data/dutils.py", "var2h", "returned index starts at the origin with the period as frequency and nvalh periods", "", line=f.lineno)
+        if okd and fq is not None:
+            # the frequency string as a function of the period length, decided for the two supported lengths by constant folding
+            from .. import pfold
+            for nsec, wants in ((3600, ("h", "H", "60min")), (1800, ("30min",))):
+                bind = {('sym', 'nbsec_per_period'): pfold.lit(nsec)}
+                if not pfold.live(p_, bind):
+                    continue
+                fv = pfold.fold(fq, bind)
+                # py.int(x) of a literal is the literal
+                fv = pfold.fold(fv, bind)
+                if not pfold.is_lit(fv):
+                    okd = None
+                elif fv[1] not in wants and okd:
+                    okd = False
+        else:
+            okd = False if okd is not None else okd
+    if okd is None:
+        rep.undecided("R14.c", "data/dutils.py", "var2h", "returned index starts at the origin with the period as frequency and nvalh periods", "frequency expression does not fold to a literal for 1800 / 3600", line=f.lineno)
+    else:
+        rep.check(bool(okd), "R14.c", "data/dutils.py", "var2h", "returned index starts at the origin with the period as frequency and nvalh periods", "", line=f.lineno)
     names = {pn: show(v)[:30] for pn, v in pa.items()}
     okb = all(pn in pa and pq.mentions(pa[pn], lambda e, pn=pn: e == ('sym', pn)) for pn in ("maxgapsec", "nbsec_per_period", "rainfall", "display"))
     okb = okb and "varvalues" in pa and pq.mentions(pa["varvalues"], lambda e: pq.call_named(e, "attr:values") and e[2][0] == ('sym', 'se'))
